@@ -845,6 +845,90 @@ func TestC13SQLiteBlockedInserter(t *testing.T) {
 	})
 }
 
+// TestC13SQLiteBlockedReaders: the database cannot serve queries (its only pooled connection is
+// in use elsewhere) while two to four sessions have a REQ in progress - the same REQ or
+// different ones. Each session that is cancelled returns promptly, whatever the others are
+// waiting for and in whatever order they are cancelled.
+func TestC13SQLiteBlockedReaders(t *testing.T) {
+	col := ev.For("C13").SetRule(c13Rule)
+	rapid.Check(t, func(t *rapid.T) {
+		dir, err := os.MkdirTemp("", "verif-c13r-")
+		if err != nil {
+			t.Fatalf("tempdir: %v", err)
+		}
+		defer os.RemoveAll(dir)
+		db, err := sql.Open("sqlite3", "file:"+dir+"/relay.db?_busy_timeout=200")
+		if err != nil {
+			t.Fatalf("open: %v", err)
+		}
+		defer db.Close()
+		db.SetMaxOpenConns(1)
+		hctx, hcancel := context.WithCancel(context.Background())
+		defer hcancel()
+		opt := mocsqlite.NewDefaultSQLiteHandlerOption()
+		opt.EventBulkInsertDur = time.Hour
+		h, err := mocsqlite.NewSQLiteHandler(hctx, db, opt)
+		if err != nil {
+			t.Fatalf("handler: %v", err)
+		}
+		held, err := db.Conn(context.Background())
+		if err != nil {
+			t.Fatalf("conn: %v", err)
+		}
+		defer held.Close()
+		ns := rapid.IntRange(2, 4).Draw(t, "sessions")
+		same := rapid.Bool().Draw(t, "same_req")
+		order := rapid.Permutation([]int{0, 1, 2, 3}[:ns]).Draw(t, "cancel_order")
+		desc := map[string]any{"composition": "sqlite", "fault": "the only pooled database connection is in use elsewhere: queries wait", "sessions": ns, "same_req_in_all_sessions": same, "cancel_order": order, "ending": "cancel-draining"}
+		type sess struct {
+			cancel context.CancelFunc
+			ret    chan error
+			stop   chan struct{}
+		}
+		ss := make([]*sess, ns)
+		for i := range ss {
+			ctx, cancel := context.WithCancel(context.Background())
+			defer cancel()
+			x := &sess{cancel: cancel, ret: make(chan error, 1), stop: make(chan struct{})}
+			ss[i] = x
+			recv := make(chan mocrelay.ClientMsg)
+			send := make(chan mocrelay.ServerMsg)
+			go func() { x.ret <- h.ServeNostr(ctx, send, recv) }()
+			go func() {
+				for {
+					select {
+					case <-send:
+					case <-x.stop:
+						return
+					}
+				}
+			}()
+			defer close(x.stop)
+			f := &mocrelay.ReqFilter{Kinds: []int64{1}, Limit: gen.Ptr(int64(10))}
+			if !same {
+				f.Kinds = []int64{int64(i + 1)}
+			}
+			select {
+			case recv <- &mocrelay.ClientReqMsg{SubscriptionID: "q", ReqFilters: []*mocrelay.ReqFilter{f}}:
+			case <-time.After(2 * time.Second):
+				t.Skip("the handler did not take the REQ: decides nothing")
+			}
+		}
+		time.Sleep(time.Duration(rapid.IntRange(1, 30).Draw(t, "settle_ms")) * time.Millisecond)
+		for k, i := range order {
+			ss[i].cancel()
+			select {
+			case <-ss[i].ret:
+			case <-time.After(3 * time.Second):
+				hx.Fail(t, ev.Failure{Property: "C13", Signature: "serve-does-not-return", Clause: "whenever a session's context is cancelled, at any point of any message history, serving returns promptly (SQLite handler, a query waiting for the database)", Case: desc,
+					Observed: fmt.Sprintf("session %d (cancelled as number %d) had not returned 3 s after its cancel", i, k+1)})
+			}
+		}
+		col.Label("sqlite-blocked-readers")
+		col.Case(true, hx.JSON(desc), func() any { return desc })
+	})
+}
+
 // TestC13LargeAnswerCut: the session is cut while a REQ answer that is much
 // longer than any buffer on the way (a prefilled cache, alone, wrapped or behind
 // a merge) is being delivered to a peer that reads only its first k messages.
